@@ -776,7 +776,8 @@ class Parser:
         # we dont use `last_newline_pos` here,
         # because the recursive parsing may result a deeper `last_newline_pos`.
         last_newline = p.lexer.lexdata.rfind("\n", 0, lexpos)
-        return lexpos - max(last_newline, 0)
+        # rfind gives -1 on the first line, columns are starting from 1.
+        return lexpos - last_newline
 
 
 def parse(filepath: str, traditional_mode: bool = False) -> Proto:
